@@ -284,6 +284,8 @@ pub fn gen_program(r: &mut Rng, tier: Tier) -> (Vec<u8>, &'static str) {
     let roll = r.below(100);
     if roll < 1 {
         (workload::gen_wide(r), "wide_fan_out")
+    } else if (56..60).contains(&roll) {
+        (workload::gen_mutual(r), "mutually_recursive_slots")
     } else if roll < 60 {
         (workload::gen_storage(r), "storage")
     } else if roll < 80 {
